@@ -138,6 +138,17 @@ theorem C05_set_scalar_is_assignment {h : Heap} (hs : Struct h) (n : Nat) (hn : 
     absVal (fuel + 1) (h.update (some n) v).1 n = plainOf v :=
   update_scalar_refines hs n hn v hv fuel
 
+/-- **DeleteKey / PopKey is "remove the member"**: the call is accepted, the receiver denotes its old members without that one, and
+all nodes off the receiver's ancestor chain — the deleted member, now detached, and everything below it included — denote what they
+denoted before -/
+theorem C05_delete_key_removes_the_member {h : Heap} (hs : Struct h) (ha : Acyc h) (n : Nat) (hn : n < h.size) (hobj : (h.get n).type = .object)
+    (k : Bytes) (c : Id) (hl : (h.childMap n).lookup k = some c) (fuel : Nat) :
+    (h.popKey (some n) k).2 = .ok c ∧
+    (∀ m : Id, ¬ Anc h m n → absVal fuel (h.popKey (some n) k).1 m = absVal fuel h m) ∧
+    (∀ kvs, absVal (fuel + 1) h n = some (.obj kvs) →
+      absVal (fuel + 1) (h.popKey (some n) k).1 n = some (.obj (kvs.filter (fun y => !(y.1 == k))))) :=
+  deleteKey_refines hs ha n hn hobj k c hl fuel
+
 /-- what a node denotes depends only on the types, scalar payloads and children maps of its subtree (the frame rule behind the three
 theorems, usable for any other pair of heaps) -/
 theorem C05_value_depends_on_the_subtree (h h' : Heap) (P : Id → Prop)
